@@ -104,6 +104,22 @@ def failing_results(results, after):
     raise exceptions.EventHandlingError('the database went away')
 
 
+class Pair(object):
+    """A two-item sequence that is neither tuple nor list."""
+
+    def __init__(self, items):
+        self._items = tuple(items)
+
+    def __iter__(self):
+        return iter(self._items)
+
+    def __len__(self):
+        return 2
+
+    def __getitem__(self, k):
+        return self._items[k]
+
+
 def handler_results(matches, reuse):
     """What on_receive_find hands to the provider: the matches themselves, or - the way a
     'for row in cursor' application does - ONE data set object refilled for every match."""
@@ -196,13 +212,18 @@ def run_case(res, case, sigs, attempt=0):
                         if raise_after == 0 and i % 2:
                             # a handler written as a plain method: it fails before it returns anything
                             raise exceptions.EventHandlingError('the database is away')
-                        results = ((d, status_in_form(st, form)) for d, st in handler_results(matches, reuse))
+                        # a match is a pair: tuple, list or any other two-item sequence
+                        pair = (tuple, list, Pair)[i % 3]
+                        results = (pair((d, status_in_form(st, form))) for d, st in handler_results(matches, reuse))
                         return results if raise_after is None else failing_results(results, raise_after)
                 server = Server('FINDSCP', 0, supported_ts=[ts], max_pdu_length=server_max)
                 server.net = net
                 server.timeout = 5
                 server.add_scp(sopclass.modality_work_list_scp if variant == 'mwl'
                                else sopclass.qr_find_scp)
+                if i % 4 == 1:
+                    # the entity also stores images (file-backed), registered after the query service
+                    server.add_scp(sopclass.storage_scp)
                 with tcpnet.serving(server):
                     remote = {'aet': 'FINDSCP', 'address': '127.0.0.1', 'port': server.port}
                     if variant == 'lib-scp-refpeer-scu':
